@@ -1154,7 +1154,7 @@ Qed.
 Fixpoint first_pos (so : string) (ms : list (string * mstep)) : option nat :=
   match ms with
   | [] => None
-  | (_, m) :: r => if String.eqb (m_sf_object m) so then Some 0 else option_map S (first_pos so r)
+  | (_, m) :: r => if String.eqb (m_table m) so then Some 0 else option_map S (first_pos so r)
   end.
 
 Fixpoint last_name (so : string) (ms : list (string * mstep)) : option string :=
@@ -1162,14 +1162,14 @@ Fixpoint last_name (so : string) (ms : list (string * mstep)) : option string :=
   | [] => None
   | (n, m) :: r => match last_name so r with
                    | Some x => Some x
-                   | None => if String.eqb (m_sf_object m) so then Some n else None
+                   | None => if String.eqb (m_table m) so then Some n else None
                    end
   end.
 
 Lemma last_first_None so ms : last_name so ms = None <-> first_pos so ms = None.
 Proof.
   induction ms as [|[n m] r IH]; cbn [last_name first_pos]; [tauto|].
-  destruct (String.eqb (m_sf_object m) so).
+  destruct (String.eqb (m_table m) so).
   - destruct (last_name so r); split; discriminate.
   - destruct (last_name so r), (first_pos so r); cbn [option_map]; split; intros H;
       try discriminate; try reflexivity.
@@ -1190,17 +1190,17 @@ Lemma index_by_sobject_spec so : forall ms idx acc,
 Proof.
   induction ms as [|[n m] r IH]; intros idx acc; cbn [index_by_sobject last_name first_pos]; [reflexivity|].
   rewrite IH. clear IH.
-  assert (Hacc : assoc_get so (match assoc_get (m_sf_object m) acc with
-                               | Some (fi, _) => dict_set (m_sf_object m) (fi, n) acc
-                               | None => dict_set (m_sf_object m) (idx, n) acc
+  assert (Hacc : assoc_get so (match assoc_get (m_table m) acc with
+                               | Some (fi, _) => dict_set (m_table m) (fi, n) acc
+                               | None => dict_set (m_table m) (idx, n) acc
                                end) =
-                 if String.eqb so (m_sf_object m)
+                 if String.eqb so (m_table m)
                  then Some (fi_of (assoc_get so acc) idx, n) else assoc_get so acc).
-  { destruct (assoc_get (m_sf_object m) acc) as [[fi ln0]|] eqn:Ea; rewrite assoc_get_dict_set;
-      destruct (String.eqb so (m_sf_object m)) eqn:E; try reflexivity;
+  { destruct (assoc_get (m_table m) acc) as [[fi ln0]|] eqn:Ea; rewrite assoc_get_dict_set;
+      destruct (String.eqb so (m_table m)) eqn:E; try reflexivity;
       apply String.eqb_eq in E; subst so; rewrite Ea; reflexivity. }
-  rewrite Hacc. rewrite (String.eqb_sym (m_sf_object m) so).
-  destruct (String.eqb so (m_sf_object m)) eqn:E.
+  rewrite Hacc. rewrite (String.eqb_sym (m_table m) so).
+  destruct (String.eqb so (m_table m)) eqn:E.
   - destruct (last_name so r) as [ln|]; cbn [fi_of]; rewrite Nat.add_0_r; reflexivity.
   - destruct (last_name so r) as [ln|] eqn:El; [|reflexivity].
     destruct (first_pos so r) as [p|] eqn:Ep.
@@ -1248,13 +1248,13 @@ Qed.
 Lemma same_first_pos so ms ms' : Forall2 same_but_after ms ms' -> first_pos so ms' = first_pos so ms.
 Proof.
   intros H. induction H as [|[n m] [n' m'] r r' Hxy Hr IH]; cbn [first_pos]; [reflexivity|].
-  destruct Hxy as (_ & Hso & _). cbn [snd] in Hso. rewrite Hso, IH. reflexivity.
+  destruct Hxy as (_ & _ & Hso & _). cbn [snd] in Hso. rewrite Hso, IH. reflexivity.
 Qed.
 
 Lemma same_last_name so ms ms' : Forall2 same_but_after ms ms' -> last_name so ms' = last_name so ms.
 Proof.
   intros H. induction H as [|[n m] [n' m'] r r' Hxy Hr IH]; cbn [last_name]; [reflexivity|].
-  destruct Hxy as (Hn & Hso & _). cbn [fst snd] in Hn, Hso. rewrite Hso, IH, Hn. reflexivity.
+  destruct Hxy as (Hn & _ & Hso & _). cbn [fst snd] in Hn, Hso. rewrite Hso, IH, Hn. reflexivity.
 Qed.
 
 (* the step at offset [length pre] was produced with index idx + length pre *)
@@ -1371,11 +1371,11 @@ Proof.
   destruct (dict_set_In _ _ _ _ H1) as [H2|H2]; [right; left; auto|auto].
 Qed.
 
-Lemma last_name_In so ms n m : In (n, m) ms -> m_sf_object m = so -> last_name so ms <> None.
+Lemma last_name_In so ms n m : In (n, m) ms -> m_table m = so -> last_name so ms <> None.
 Proof.
   induction ms as [|[n0 m0] r IH]; cbn [In last_name]; [tauto|].
   intros [H|H] Hso.
-  - inversion H; subst. rewrite String.eqb_refl. destruct (last_name (m_sf_object m) r); discriminate.
+  - inversion H; subst. rewrite String.eqb_refl. destruct (last_name (m_table m) r); discriminate.
   - specialize (IH H Hso). destruct (last_name so r); [discriminate|congruence].
 Qed.
 
@@ -1635,33 +1635,33 @@ Proof.
 Qed.
 
 Lemma unique_first_last so pre n m post :
-  m_sf_object m = so ->
-  (forall nm, In nm pre \/ In nm post -> m_sf_object (snd nm) <> so) ->
+  m_table m = so ->
+  (forall nm, In nm pre \/ In nm post -> m_table (snd nm) <> so) ->
   first_pos so (pre ++ (n, m) :: post) = Some (length pre) /\
   last_name so (pre ++ (n, m) :: post) = Some n.
 Proof.
   intros Hso Hothers.
   assert (Hpost : last_name so post = None).
-  { assert (forall l, (forall nm, In nm l -> m_sf_object (snd nm) <> so) -> last_name so l = None) as G.
+  { assert (forall l, (forall nm, In nm l -> m_table (snd nm) <> so) -> last_name so l = None) as G.
     { induction l as [|[n0 m0] r IH]; intros Hl; cbn [last_name]; [reflexivity|].
       rewrite IH by (intros; apply Hl; right; assumption).
-      destruct (String.eqb (m_sf_object m0) so) eqn:E; [|reflexivity].
+      destruct (String.eqb (m_table m0) so) eqn:E; [|reflexivity].
       apply String.eqb_eq in E. exfalso. apply (Hl (n0, m0)); [left; reflexivity|assumption]. }
     apply G. intros nm Hnm. apply Hothers. auto. }
   induction pre as [|[n0 m0] r IH]; cbn [app first_pos last_name length].
   - rewrite Hso, String.eqb_refl, Hpost. auto.
   - destruct IH as [IH1 IH2]; [intros nm [Hnm|Hnm]; apply Hothers; [left; right; assumption|auto]|].
     rewrite IH1, IH2. cbn [option_map].
-    destruct (String.eqb (m_sf_object m0) so) eqn:E; [|auto].
+    destruct (String.eqb (m_table m0) so) eqn:E; [|auto].
     apply String.eqb_eq in E. exfalso. apply (Hothers (n0, m0)); [left; left; reflexivity|assumption].
 Qed.
 
-(* the property's after-rule: the target is loaded by a single step *)
+(* the property's after-rule: the target table is loaded by a single step *)
 Theorem after_rule_single tpls deps decls ms pre name m post l prej namej mj postj :
   mapping_from_recipe tpls deps decls = Ok ms -> ms = pre ++ (name, m) :: post ->
   In l (m_lookups m) -> lk_table l <> "PersonContact" ->
-  ms = prej ++ (namej, mj) :: postj -> m_sf_object mj = lk_table l ->
-  (forall nm, In nm prej \/ In nm postj -> m_sf_object (snd nm) <> lk_table l) ->
+  ms = prej ++ (namej, mj) :: postj -> m_table mj = lk_table l ->
+  (forall nm, In nm prej \/ In nm postj -> m_table (snd nm) <> lk_table l) ->
   length prej < length pre \/ lk_after l = Some namej.
 Proof.
   intros H Heq Hl Hpc Heqj Hso Hothers.
@@ -1727,43 +1727,10 @@ Proof.
   assert (Hst : In (mkLs (ti_name ti) (norm_key (tp_key tp)) (ti_fields ti)) steps)
     by (apply Hin; exists ti, (norm_key (tp_key tp)); auto).
   apply mapM_Forall2 in Hn. destruct (Forall2_In_l _ _ _ _ Hn Hst) as [[n2 m2] [Hin2 Hb2]].
-  apply step_body_spec in Hb2. destruct Hb2 as (_ & _ & _ & B4 & _). cbn [ls_table] in B4.
-  rewrite T1, Epc in B4.
+  apply step_body_spec in Hb2. destruct Hb2 as (_ & B4 & _). cbn [ls_table] in B4.
+  rewrite T1 in B4.
   pose proof (last_name_In _ _ _ _ Hin2 B4) as Hl.
   destruct (last_name (lk_table l) named); [discriminate|congruence].
-Qed.
-
-(* the after-rule read by table name (the property's wording) holds when no table is called
-   PersonContact: then every step's sf_object is its table *)
-Theorem after_rule_by_table tpls deps decls ms pre name m post l prej namej mj postj :
-  (forall tp, In tp tpls -> has_space (tp_table tp) = false) ->
-  (forall tp, In tp tpls -> tp_table tp <> "PersonContact") ->
-  mapping_from_recipe tpls deps decls = Ok ms -> ms = pre ++ (name, m) :: post ->
-  In l (m_lookups m) ->
-  ms = prej ++ (namej, mj) :: postj -> m_table mj = lk_table l ->
-  (forall nm, In nm prej \/ In nm postj -> m_table (snd nm) <> lk_table l) ->
-  length prej < length pre \/ lk_after l = Some namej.
-Proof.
-  intros Hns Hnopc H Heq Hl Heqj Htab Hothers.
-  destruct (steps_complete _ _ _ _ Hns H) as (_ & Hkeys & Hsteps).
-  assert (Hsf : forall n0 m0, In (n0, m0) ms -> m_sf_object m0 = m_table m0 /\ m_table m0 <> "PersonContact").
-  { intros n0 m0 Hin. destruct (Hsteps n0 m0 Hin) as (_ & S2 & _).
-    assert (Hk : In (m_table m0, m_update_key m0) (map step_key ms))
-      by (apply in_map_iff; exists (n0, m0); split; [reflexivity|assumption]).
-    apply Hkeys in Hk. destruct Hk as [tp [P1 [_ [P3 _]]]].
-    assert (Hne : m_table m0 <> "PersonContact") by (rewrite <- P3; apply Hnopc; assumption).
-    split; [|assumption]. rewrite S2.
-    destruct (String.eqb (m_table m0) "PersonContact") eqn:E; [|reflexivity].
-    apply String.eqb_eq in E. contradiction. }
-  assert (Hj : In (namej, mj) ms) by (rewrite Heqj; apply in_or_app; right; left; reflexivity).
-  destruct (Hsf _ _ Hj) as [Hsfj Hnej].
-  eapply after_rule_single; try eassumption.
-  - rewrite <- Htab. assumption.
-  - congruence.
-  - intros [n0 m0] Hin. cbn [snd].
-    assert (Hin0 : In (n0, m0) ms).
-    { rewrite Heqj. apply in_or_app. destruct Hin as [Hin|Hin]; [left; assumption|right; right; assumption]. }
-    destruct (Hsf _ _ Hin0) as [Hsf0 _]. rewrite Hsf0. apply (Hothers (n0, m0)). assumption.
 Qed.
 
 (* ================================================================== parents first *)
